@@ -640,6 +640,32 @@ example : ∀ b tr, build exOuterLeak ≠ .ok (b, tr) := by
     (Below.direct (n := 6) (Reach.step r7 (by decide)) (by decide))
     ⟨some [2, 3, 4], [3, 5]⟩ [2, 3, 4] rfl rfl 4 (by decide) (Reach.step r7 (by decide))
 
+/-- a Loop whose body computes `Neg(carried)`: ids 0 x, 1 c, 2 3 4 the body's arguments, 5 Neg(4), 6 Loop -/
+def exLoop : Prog :=
+  { nodes := [⟨true, [], []⟩, ⟨true, [], []⟩, ⟨true, [], []⟩, ⟨true, [], []⟩, ⟨true, [], []⟩,
+              ⟨false, [4], []⟩, ⟨false, [0], [1]⟩],
+    graphs := [⟨some [0, 1], [6]⟩, ⟨some [2, 3, 4], [3, 5]⟩] }
+
+example : exLoop.WFb = true := by decide
+
+/-- the hypotheses of `arg_dependent_not_read_above` are satisfiable: the build succeeds, `Neg(carried)`
+    is placed in the body and the main graph does not read it -/
+example : ∃ b tr, build exLoop = .ok (b, tr) ∧ (V.node 5, 1) ∈ placed tr [] ∧
+    ¬ Reach exLoop.adjIn (.src 0) (.node 5) := by
+  refine ⟨_, _, rfl, by decide, ?_⟩
+  exact arg_dependent_not_read_above exLoop (wf_of_wfb _ (by decide)) _ _ rfl 0 1 (by decide)
+    (Below.direct (n := 6) (Reach.step (Reach.refl _) (by decide)) (by decide))
+    ⟨some [2, 3, 4], [3, 5]⟩ [2, 3, 4] rfl rfl 4 (by decide) (.node 5)
+    (Reach.step (Reach.refl _) (by decide))
+
+/-- `spox.build(..., drop_unused_inputs=True)` with the inputs given as (c, x): in `exLoop` nobody reads
+    `c`, it is dropped; in `exNested` both are read (inside bodies too) and keep the given order; a
+    needed input that was not given is a `KeyError`; without `drop_unused_inputs` both stay -/
+example : (publicBuild exLoop [1, 0] true).toOption.map (·.2.2) = some [0] := by decide
+example : (publicBuild exNested [1, 0] true).toOption.map (·.2.2) = some [1, 0] := by decide
+example : (publicBuild exLoop [1] true).toOption.map (·.2.2) = none := by decide
+example : (publicBuild exLoop [1, 0] false).toOption.map (·.2.2) = some [1, 0] := by decide
+
 /-- sibling leak (design probe p4): the second Loop body uses the first body's argument 4. The
     Builder itself does not object (`build` succeeds, both bodies hang off the main graph); it is the
     structural rule of the final checker that rejects the emission. -/
